@@ -5,10 +5,8 @@ import (
 	"testing"
 
 	"google.golang.org/protobuf/proto"
-	"google.golang.org/protobuf/reflect/protoreflect"
-	"google.golang.org/protobuf/types/dynamicpb"
-	"google.golang.org/protobuf/zverif/corpus"
 	"google.golang.org/protobuf/zverif/gen"
+	"google.golang.org/protobuf/zverif/mcase"
 	"google.golang.org/protobuf/zverif/model"
 	"google.golang.org/protobuf/zverif/pbt"
 	"google.golang.org/protobuf/zverif/ref"
@@ -16,27 +14,15 @@ import (
 )
 
 type rtCase struct {
-	Type    string
-	Dynamic bool // dynamicpb message of the same descriptor instead of the generated type
-	Det     bool
-	Lazy    bool
-	M       *model.Msg
-	Wire    []byte   // perturbed-but-equivalent reference encoding of M
-	Labels  []string // perturbations applied
-}
-
-func newMsg(name string, dyn bool) protoreflect.Message {
-	mt := corpus.ByName(name)
-	if dyn {
-		return dynamicpb.NewMessage(mt.Descriptor())
-	}
-	return mt.New()
+	mcase.Case
+	Det  bool
+	Lazy bool
 }
 
 func checkRT(c rtCase) error {
-	md := corpus.ByName(c.Type).Descriptor()
-	m := newMsg(c.Type, c.Dynamic)
-	if err := model.Apply(m, c.M, nil); err != nil {
+	md := c.Desc()
+	m, err := c.Build()
+	if err != nil {
 		return fmt.Errorf("harness: %v", err)
 	}
 	eq := model.EqualOpts{BitwiseFloats: true}
@@ -51,7 +37,7 @@ func checkRT(c rtCase) error {
 		return fmt.Errorf("Marshal output is not a well-formed field sequence: %x", b)
 	}
 	uo := proto.UnmarshalOptions{AllowPartial: true, NoLazyDecoding: !c.Lazy}
-	m2 := newMsg(c.Type, c.Dynamic)
+	m2 := mcase.New(c.Type, c.Dynamic)
 	if err := uo.Unmarshal(b, m2.Interface()); err != nil {
 		return fmt.Errorf("Unmarshal(Marshal(m)) failed: %v (bytes %x)", err, b)
 	}
@@ -65,7 +51,7 @@ func checkRT(c rtCase) error {
 		return fmt.Errorf("proto.Equal(Unmarshal(Marshal(m)), m) = false")
 	}
 	// the reference (perturbed but equivalent) encoding decodes to the same content
-	m3 := newMsg(c.Type, c.Dynamic)
+	m3 := mcase.New(c.Type, c.Dynamic)
 	if err := uo.Unmarshal(c.Wire, m3.Interface()); err != nil {
 		return fmt.Errorf("Unmarshal(reference encoding %v) failed: %v (bytes %x)", c.Labels, err, c.Wire)
 	}
@@ -76,7 +62,7 @@ func checkRT(c rtCase) error {
 		return fmt.Errorf("proto.Equal(m, Unmarshal(reference encoding %v)) = false", c.Labels)
 	}
 	// and the other implementation (generated <-> dynamicpb) decodes Marshal's bytes alike
-	m4 := newMsg(c.Type, !c.Dynamic)
+	m4 := mcase.New(c.Type, !c.Dynamic)
 	if err := uo.Unmarshal(b, m4.Interface()); err != nil {
 		return fmt.Errorf("cross decode (dynamic=%v) failed: %v", !c.Dynamic, err)
 	}
@@ -86,85 +72,22 @@ func checkRT(c rtCase) error {
 	return nil
 }
 
-var types, rich = corpus.Standard(), corpus.Rich(20)
-
-func shapes(md protoreflect.MessageDescriptor, v *model.Msg, set map[string]bool) {
-	if v == nil {
-		return
-	}
-	if len(v.Unknown) > 0 {
-		set["unknown"] = true
-	}
-	for _, f := range v.Fields {
-		fd := model.FieldDesc(md, f.Num, nil)
-		if fd == nil {
-			continue
-		}
-		switch {
-		case fd.IsExtension():
-			set["extension"] = true
-		case fd.IsMap():
-			set["map"] = true
-		case fd.ContainingOneof() != nil && !fd.ContainingOneof().IsSynthetic():
-			set["oneof"] = true
-		case fd.Kind() == protoreflect.GroupKind:
-			set["group"] = true
-		case fd.IsList() && fd.IsPacked():
-			set["packed"] = true
-		case fd.IsList():
-			set["list"] = true
-		}
-		sub := fd.Message()
-		if fd.IsMap() {
-			sub = fd.MapValue().Message()
-		}
-		if sub != nil {
-			set["submessage"] = true
-			for _, x := range f.Vals {
-				shapes(sub, x.M, set)
-			}
-		}
-	}
-}
-
-func classes(c rtCase) []string {
-	set := map[string]bool{}
-	shapes(corpus.ByName(c.Type).Descriptor(), c.M, set)
-	var out []string
-	for k := range set {
-		out = append(out, k)
-	}
-	out = append(out, c.Labels...)
-	if c.Dynamic {
-		out = append(out, "dynamicpb")
-	}
-	if c.Lazy {
-		out = append(out, "lazy-on")
-	}
-	return out
-}
-
 func TestRoundTrip(t *testing.T) {
 	pbt.Run(t, pbt.Prop[rtCase]{
 		Name: "roundtrip",
 		Rule: "type drawn from all linked message types (generated or dynamicpb of the same descriptor); content from the descriptor-directed generator (boundary scalars, NaN/-0, maps, oneofs, groups, extensions, unknown fields); plus a perturbed-but-equivalent reference encoding (shuffled fields, repacked lists, padded varints, decoys, split submessages, map entry variants). non-trivial = >= 3 populated fields and >= 2 distinct shapes among map/oneof/group/extension/packed/list/unknown/submessage",
 		Draw: func(t *rapid.T) rtCase {
-			c := rtCase{Type: gen.TypeName(types, rich).Draw(t, "type"), Dynamic: rapid.IntRange(0, 3).Draw(t, "dyn") == 0, Det: rapid.Bool().Draw(t, "det"), Lazy: rapid.Bool().Draw(t, "lazy")}
-			md := corpus.ByName(c.Type).Descriptor()
-			mo := gen.DefaultMsgOpts
-			c.M = gen.DrawMessage(t, md, mo)
-			o := model.AllPerturbations
-			o.Labels = &c.Labels
-			c.Wire = model.Encode(md, c.M, gen.RapidChooser{T: t}, o, nil)
-			return c
+			return rtCase{Case: mcase.Draw(t, nil, nil, gen.DefaultMsgOpts, model.AllPerturbations), Det: rapid.Bool().Draw(t, "det"), Lazy: rapid.Bool().Draw(t, "lazy")}
 		},
-		Check: checkRT,
-		NonTrivial: func(c rtCase) bool {
-			set := map[string]bool{}
-			shapes(corpus.ByName(c.Type).Descriptor(), c.M, set)
-			return len(c.M.Fields) >= 3 && len(set) >= 2
+		Check:      checkRT,
+		NonTrivial: func(c rtCase) bool { return c.NonTrivial() },
+		Classes: func(c rtCase) []string {
+			cl := c.Classes()
+			if c.Lazy {
+				cl = append(cl, "lazy-on")
+			}
+			return cl
 		},
-		Classes: classes,
-		Quick:   30000, Thorough: 400000,
+		Quick: 30000, Thorough: 400000,
 	})
 }
